@@ -309,6 +309,32 @@ Proof.
   cbn [app]. exact Hh.
 Qed.
 
+(* the file may be missing: REST n (n > 0) + STOR/APPE on a missing path ends with 451, creates
+   nothing and sends no 226; without an offset the file is created and holds the payload; on an
+   existing file stor_worker_on is stor_worker *)
+Theorem stor_worker_on_existing : forall table vm off old reads,
+  stor_worker_on table vm off (Some old) reads
+  = match stor_worker table vm off old reads with Some c => Some (Some c) | None => None end.
+Proof.
+  intros. unfold stor_worker_on, stor_worker.
+  destruct (select_mode table vm (negb (off =? 0))); reflexivity.
+Qed.
+
+Theorem stor_worker_on_missing : forall table vm off block payload reads,
+  stor_table_ok table -> store_mode vm -> conforming block payload reads ->
+  stor_worker_on table vm off None reads
+  = Some (if off =? 0 then Some payload else None).
+Proof.
+  intros table vm off block payload reads Ht Hvm Hc. unfold stor_worker_on.
+  destruct (Ht vm) as [Hr Hn]. destruct off as [|off'].
+  - cbn [Nat.eqb negb]. rewrite Hn.
+    assert (Ho : h_open_opt vm None = Some (h_open vm [])) by (destruct Hvm as [-> | ->]; reflexivity).
+    rewrite Ho. do 2 f_equal.
+    rewrite (stor_loop_conforming _ _ _ _ Hc). cbn [h_content].
+    destruct Hvm as [-> | ->]; cbn [h_open h_pos h_content length]; apply write_at_0_nil.
+  - cbn [Nat.eqb negb]. rewrite Hr. reflexivity.
+Qed.
+
 (* ------------------------------------------------------------------------------------------ *)
 (* end to end                                                                                  *)
 
@@ -558,67 +584,145 @@ Proof. intros. now apply retr_exact. Qed.
 (* ------------------------------------------------------------------------------------------ *)
 (* the restart offset across the commands the client sends                                     *)
 
-Definition exempt_ok (table : list (string * string)) (exempt : list string) : Prop :=
-  mem_s "type" exempt = false /\ mem_s "stor" exempt = true /\ mem_s "appe" exempt = true
-  /\ mem_s "retr" exempt = true
-  /\ assoc_s "type" table <> None /\ assoc_s "rest" table <> None.
-
-Definition check_exempt (table : list (string * string)) (exempt : list string) : bool :=
-  negb (mem_s "type" exempt) && mem_s "stor" exempt && mem_s "appe" exempt && mem_s "retr" exempt
-  && match assoc_s "type" table with Some _ => true | None => false end
-  && match assoc_s "rest" table with Some _ => true | None => false end.
-
-Lemma check_exempt_sound : forall t e, check_exempt t e = true -> exempt_ok t e.
-Proof.
-  intros t e H. unfold check_exempt in H. rewrite !andb_true_iff, negb_true_iff in H.
-  destruct H as [[[[[H1 H2] H3] H4] H5] H6]. unfold exempt_ok.
-  repeat split; try assumption.
-  - destruct (assoc_s "type" t); [discriminate|discriminate].
-  - destruct (assoc_s "rest" t); [discriminate|discriminate].
-Qed.
-
 Definition transfer_verb (v : string) : Prop := v = "stor" \/ v = "appe" \/ v = "retr".
 
-(* REST o issued by get_stream reaches the transfer command, whatever happened before *)
-Theorem rest_survives : forall table exempt hist off0 passive verb off,
-  exempt_ok table exempt -> transfer_verb verb ->
-  offset_after table exempt (hist ++ get_stream_cmds passive verb off) off0 = off.
+Definition client_verbs : list string := ["stor"; "appe"; "retr"; "rest"; "type"; "pasv"; "epsv"].
+
+(* what the theorems need of the dispatcher's three lists: no verb keeps the pending offset
+   (EXEMPT empty), the offset is handed to the three transfer verbs and not to REST, and the verbs
+   the client sends are known *)
+Definition offsets_ok (table : list (string * string)) (handed exempt : list string) : Prop :=
+  (forall v, mem_s v exempt = false)
+  /\ mem_s "rest" handed = false
+  /\ (forall v, transfer_verb v -> mem_s v handed = true)
+  /\ (forall v, In v client_verbs -> assoc_s v table <> None).
+
+Definition check_offsets (table : list (string * string)) (handed exempt : list string) : bool :=
+  match exempt with [] => true | _ :: _ => false end
+  && negb (mem_s "rest" handed)
+  && mem_s "stor" handed && mem_s "appe" handed && mem_s "retr" handed
+  && forallb (fun v => match assoc_s v table with Some _ => true | None => false end) client_verbs.
+
+Lemma check_offsets_sound : forall t h e, check_offsets t h e = true -> offsets_ok t h e.
 Proof.
-  intros table exempt hist off0 passive verb off [Ht [Hs [Ha [Hr [Htt Htr]]]]] Hv.
-  unfold offset_after, get_stream_cmds. rewrite fold_left_app.
-  set (o1 := fold_left (disp_step table exempt) hist off0).
-  assert (Hverb : mem_s verb exempt = true) by (destruct Hv as [->|[->| ->]]; assumption).
-  cbn [app fold_left disp_step].
-  destruct (assoc_s "type" table) as [tt|]; [|congruence]. rewrite Ht.
-  assert (Hp : match assoc_s passive table with
-               | Some _ => if mem_s passive exempt then 0 else 0
-               | None => 0
-               end = 0).
-  { destruct (assoc_s passive table); [destruct (mem_s passive exempt)|]; reflexivity. }
-  rewrite Hp.
-  destruct (assoc_s "rest" table) as [tr|] eqn:Erest; [|congruence].
-  destruct off as [|off']; cbn [Nat.eqb app fold_left disp_step]; rewrite ?Erest, Hverb;
-    destruct (assoc_s verb table); reflexivity.
+  intros t h e H. unfold check_offsets in H. rewrite !andb_true_iff, negb_true_iff in H.
+  destruct H as [[[[[He Hr] Hs] Ha] Hre] Ht]. unfold offsets_ok. repeat split.
+  - intro v. destruct e; [reflexivity|discriminate].
+  - exact Hr.
+  - intros v [->|[->| ->]]; assumption.
+  - intros v Hv. rewrite forallb_forall in Ht. specialize (Ht v Hv).
+    destruct (assoc_s v t); [discriminate|discriminate].
 Qed.
 
-(* in particular a plain transfer (offset 0) issued through the client after a completed
-   REST + transfer pair is served from offset 0 *)
-Corollary plain_after_restart_pair : forall table exempt passive1 verb1 off1 passive2 verb2,
-  exempt_ok table exempt -> transfer_verb verb1 -> transfer_verb verb2 ->
-  offset_after table exempt (get_stream_cmds passive1 verb1 off1 ++ get_stream_cmds passive2 verb2 0) 0 = 0.
-Proof. intros. now apply rest_survives. Qed.
+Lemma disp_verb_known : forall table handed exempt s v,
+  (forall x, mem_s x exempt = false) -> assoc_s v table <> None ->
+  disp_verb table handed exempt s v
+  = mkO 0 (if mem_s v handed then o_restart s else o_transfer s).
+Proof.
+  intros table handed exempt s v He Hv. unfold disp_verb.
+  destruct (assoc_s v table); [|congruence]. now rewrite He.
+Qed.
 
-(* F14 (belongs to C05, recorded there): without a non-exempt command in between the offset is
-   re-used -- stated here only to delimit what rest_survives does NOT say *)
-Lemma offset_reused_without_reset :
-  offset_after [("rest", "rest"); ("retr", "retr")] ["retr"; "stor"; "appe"]
-               [CRest 4; CVerb "retr"; CVerb "retr"] 0 = 4.
+(* any command other than REST leaves a cleared pending offset cleared *)
+Definition not_rest (c : cmdk) : Prop := match c with CRest _ => False | CVerb _ => True end.
+
+Lemma cleared_stays_cleared : forall table handed exempt mid s,
+  (forall x, mem_s x exempt = false) ->
+  Forall not_rest mid -> o_restart s = 0 ->
+  o_restart (fold_left (disp_step table handed exempt) mid s) = 0.
+Proof.
+  intros table handed exempt. induction mid as [|c r IH]; intros s He Hm Hs; [exact Hs|].
+  inversion Hm as [|? ? Hc Hr]; subst. cbn [fold_left]. apply IH; [exact He|exact Hr|].
+  destruct c as [n|v]; [now elim Hc|]. cbn [disp_step]. unfold disp_verb.
+  destruct (assoc_s v table); [|exact Hs]. cbn [o_restart]. now rewrite He.
+Qed.
+
+(* REST o issued by get_stream reaches the transfer command it precedes, whatever happened
+   before, and is consumed by it: afterwards nothing is pending *)
+Theorem rest_applies_to_next_transfer : forall table handed exempt hist s0 passive verb off,
+  offsets_ok table handed exempt -> transfer_verb verb ->
+  offset_after table handed exempt (hist ++ get_stream_cmds passive verb off) s0 = mkO 0 off.
+Proof.
+  intros table handed exempt hist s0 passive verb off [He [Hr [Hh Ht]]] Hv.
+  unfold offset_after, get_stream_cmds. rewrite fold_left_app.
+  set (o1 := fold_left (disp_step table handed exempt) hist s0).
+  assert (Hverb : mem_s verb handed = true) by (apply Hh; exact Hv).
+  assert (Hvt : assoc_s verb table <> None).
+  { apply Ht. unfold client_verbs. destruct Hv as [->|[->| ->]]; cbn; tauto. }
+  assert (Htype : assoc_s "type" table <> None) by (apply Ht; unfold client_verbs; cbn; tauto).
+  assert (Hrest : assoc_s "rest" table <> None) by (apply Ht; unfold client_verbs; cbn; tauto).
+  cbn [app fold_left disp_step].
+  rewrite (disp_verb_known _ _ _ o1 "type" He Htype).
+  set (o2 := mkO 0 _).
+  assert (H3 : o_restart (disp_verb table handed exempt o2 passive) = 0).
+  { unfold disp_verb. destruct (assoc_s passive table); [|reflexivity]. cbn [o_restart]. now rewrite He. }
+  set (o3 := disp_verb table handed exempt o2 passive) in *.
+  destruct off as [|off']; cbn [Nat.eqb app fold_left disp_step].
+  - rewrite (disp_verb_known _ _ _ o3 verb He Hvt), Hverb, H3. reflexivity.
+  - destruct (assoc_s "rest" table) as [tr|] eqn:Erest; [|congruence].
+    rewrite (disp_verb_known _ _ _ _ verb He Hvt), Hverb. reflexivity.
+Qed.
+
+(* ... and to that command ONLY: once any known command has been dispatched after the last REST,
+   a transfer command is served from 0 -- in particular the second of two back-to-back transfer
+   commands (x itself a transfer verb, mid empty), and a transfer after `REST n; PWD` *)
+Theorem offset_applies_to_next_command_only : forall table handed exempt hist s0 x mid verb,
+  offsets_ok table handed exempt ->
+  assoc_s x table <> None -> Forall not_rest mid -> transfer_verb verb ->
+  offset_after table handed exempt (hist ++ [CVerb x] ++ mid ++ [CVerb verb]) s0 = mkO 0 0.
+Proof.
+  intros table handed exempt hist s0 x mid verb [He [Hr [Hh Ht]]] Hx Hm Hv.
+  unfold offset_after. rewrite !fold_left_app.
+  set (o1 := fold_left (disp_step table handed exempt) hist s0).
+  cbn [fold_left disp_step]. rewrite (disp_verb_known _ _ _ o1 x He Hx).
+  set (o2 := mkO 0 _).
+  assert (H0 : o_restart (fold_left (disp_step table handed exempt) mid o2) = 0)
+    by (apply cleared_stays_cleared; [exact He|exact Hm|reflexivity]).
+  assert (Hvt : assoc_s verb table <> None).
+  { apply Ht. unfold client_verbs. destruct Hv as [->|[->| ->]]; cbn; tauto. }
+  rewrite (disp_verb_known _ _ _ _ verb He Hvt), (Hh verb Hv), H0. reflexivity.
+Qed.
+
+(* the second of two back-to-back transfers through the client API starts at 0 *)
+Corollary second_transfer_starts_at_0 : forall table handed exempt hist s0 passive verb1 off1 verb2,
+  offsets_ok table handed exempt -> transfer_verb verb1 -> transfer_verb verb2 ->
+  offset_after table handed exempt ((hist ++ get_stream_cmds passive verb1 off1) ++ [CVerb verb2]) s0 = mkO 0 0.
+Proof.
+  intros table handed exempt hist s0 passive verb1 off1 verb2 Hok Hv1 Hv2.
+  unfold offset_after. rewrite fold_left_app.
+  fold (offset_after table handed exempt (hist ++ get_stream_cmds passive verb1 off1) s0).
+  rewrite (rest_applies_to_next_transfer _ _ _ _ _ _ _ _ Hok Hv1).
+  destruct Hok as [He [Hr [Hh Ht]]].
+  assert (Hvt : assoc_s verb2 table <> None).
+  { apply Ht. unfold client_verbs. destruct Hv2 as [->|[->| ->]]; cbn; tauto. }
+  cbn [fold_left disp_step]. rewrite (disp_verb_known _ _ _ _ verb2 He Hvt), (Hh verb2 Hv2). reflexivity.
+Qed.
+
+(* a plain transfer (offset 0) issued through the client after a completed REST + transfer pair
+   is served from offset 0 *)
+Corollary plain_after_restart_pair : forall table handed exempt s0 passive1 verb1 off1 passive2 verb2,
+  offsets_ok table handed exempt -> transfer_verb verb1 -> transfer_verb verb2 ->
+  offset_after table handed exempt (get_stream_cmds passive1 verb1 off1 ++ get_stream_cmds passive2 verb2 0) s0 = mkO 0 0.
+Proof. intros. now apply rest_applies_to_next_transfer. Qed.
+
+(* the former F14 witness: REST 4; RETR; RETR -- the workers read 4, then 0 *)
+Lemma back_to_back_trace :
+  transfer_trace [("rest", "rest"); ("retr", "retr")] ["retr"; "stor"; "appe"] []
+                 [CRest 4; CVerb "retr"; CVerb "retr"] (mkO 0 0) = [4; 0].
 Proof. reflexivity. Qed.
 
-(* a verb that is not in the table is answered 502 and does not touch the offset *)
+(* with the lists of the pre-F14 source (nothing handed, the three transfer verbs exempt from the
+   reset, workers reading restart_offset themselves) the pending offset is still 4 when the
+   second RETR's worker looks: why EXEMPT must be empty *)
+Lemma exempt_list_reuses_offset :
+  o_restart (offset_after [("rest", "rest"); ("retr", "retr")] [] ["retr"; "stor"; "appe"]
+                          [CRest 4; CVerb "retr"; CVerb "retr"] (mkO 0 0)) = 4.
+Proof. reflexivity. Qed.
+
+(* a verb that is not in the table is answered 502 and does not touch the pending offset *)
 Lemma unknown_verb_keeps_offset :
-  offset_after [("rest", "rest"); ("retr", "retr")] ["retr"; "stor"; "appe"]
-               [CRest 4; CVerb "noop"; CVerb "retr"] 0 = 4.
+  transfer_trace [("rest", "rest"); ("retr", "retr")] ["retr"; "stor"; "appe"] []
+                 [CRest 4; CVerb "noop"; CVerb "retr"] (mkO 0 0) = [4].
 Proof. reflexivity. Qed.
 
 (* ------------------------------------------------------------------------------------------ *)
@@ -639,11 +743,10 @@ Theorem check_dispatch_facts_sound : forall ws hs d,
   /\ (exists rw, find_worker "retr_worker" ws = Some rw
               /\ retr_table_ok (w_open_modes rw) /\ w_reply_after_ctx rw = true)
   /\ (exists ap, find_handler "appe" hs = Some ap /\ h_delegate ap = Some "stor")
-  /\ exempt_ok (d_table d) (d_reset_exempt d)
-  /\ d_reset_exempt d = ["retr"; "stor"; "appe"].
+  /\ offsets_ok (d_table d) (d_offset_handed d) (d_reset_exempt d).
 Proof.
   intros ws hs d H. unfold check_dispatch_facts in H. rewrite !andb_true_iff in H.
-  destruct H as [[[[[[[Hs Hr] Ha] _] _] He] Htab] _].
+  destruct H as [[[[[[[[Hs Hr] Ha] _] _] He] Hh] Htab] _].
   assert (W : forall name modes, check_worker ws name modes = true ->
               exists w, find_worker name ws = Some w /\ w_open_modes w = modes
                         /\ w_reply_after_ctx w = true).
@@ -651,20 +754,19 @@ Proof.
     destruct (find_worker name ws) as [w|]; [|discriminate]. exists w.
     rewrite !andb_true_iff in Hc. destruct Hc as [[[[Hm Hra] _] _] _].
     apply list_string_eqb_eq in Hm. subst. auto. }
-  apply list_string_eqb_eq in He.
-  split; [|split; [|split; [|split]]].
+  apply list_string_eqb_eq in He. apply list_string_eqb_eq in Hh.
+  split; [|split; [|split]].
   - destruct (W _ _ Hs) as [w [Hf [Hm Hra]]]. exists w. rewrite Hm.
     split; [exact Hf|split; [exact expected_stor_table_ok|assumption]].
   - destruct (W _ _ Hr) as [w [Hf [Hm Hra]]]. exists w. rewrite Hm.
     split; [exact Hf|split; [exact expected_retr_table_ok|assumption]].
   - destruct (find_handler "appe" hs) as [h|]; [|discriminate]. exists h. split; [reflexivity|].
     destruct (h_delegate h) as [t|]; [|discriminate]. apply String.eqb_eq in Ha. now subst.
-  - rewrite forallb_forall in Htab.
-    assert (Hin : forall v, In v ["stor"; "appe"; "retr"; "rest"; "type"; "pasv"; "epsv"] ->
-                  assoc_s v (d_table d) <> None).
-    { intros v Hv. specialize (Htab v Hv). destruct (assoc_s v (d_table d)); [discriminate|discriminate]. }
-    rewrite He. unfold exempt_ok. repeat split; try reflexivity; apply Hin; cbn; tauto.
-  - exact He.
+  - apply check_offsets_sound. rewrite He, Hh. unfold check_offsets.
+    cbn [mem_s existsb String.eqb Ascii.eqb Bool.eqb negb orb andb].
+    rewrite forallb_forall in Htab. apply forallb_forall. intros v Hv.
+    assert (Hin : In v ["stor"; "appe"; "retr"; "rest"; "type"; "pasv"; "epsv"]) by exact Hv.
+    specialize (Htab v Hin). destruct (assoc_s v (d_table d)); [reflexivity|discriminate].
 Qed.
 
 Lemma check_xfer_verb_modes : forall f, check_xfer_facts f = true ->
@@ -748,11 +850,24 @@ Section Checked.
     rewrite <- Hs. now apply sock_trace_conforming.
   Qed.
 
-  Theorem rest_survives_checked : forall hist off0 passive verb off,
+  Lemma offsets_ok_checked : offsets_ok (d_table d) (d_offset_handed d) (d_reset_exempt d).
+  Proof. exact (proj2 (proj2 (proj2 (check_dispatch_facts_sound _ _ _ Hdisp)))). Qed.
+
+  Theorem rest_applies_to_next_transfer_checked : forall hist s0 passive verb off,
     transfer_verb verb ->
-    offset_after (d_table d) (d_reset_exempt d) (hist ++ get_stream_cmds passive verb off) off0 = off.
-  Proof.
-    intros. destruct (check_dispatch_facts_sound _ _ _ Hdisp) as [_ [_ [_ [He _]]]].
-    now apply rest_survives.
-  Qed.
+    offset_after (d_table d) (d_offset_handed d) (d_reset_exempt d)
+                 (hist ++ get_stream_cmds passive verb off) s0 = mkO 0 off.
+  Proof. intros. apply rest_applies_to_next_transfer; [exact offsets_ok_checked|assumption]. Qed.
+
+  Theorem offset_applies_to_next_command_only_checked : forall hist s0 x mid verb,
+    assoc_s x (d_table d) <> None -> Forall not_rest mid -> transfer_verb verb ->
+    offset_after (d_table d) (d_offset_handed d) (d_reset_exempt d)
+                 (hist ++ [CVerb x] ++ mid ++ [CVerb verb]) s0 = mkO 0 0.
+  Proof. intros. apply offset_applies_to_next_command_only; try assumption. exact offsets_ok_checked. Qed.
+
+  Theorem second_transfer_starts_at_0_checked : forall hist s0 passive verb1 off1 verb2,
+    transfer_verb verb1 -> transfer_verb verb2 ->
+    offset_after (d_table d) (d_offset_handed d) (d_reset_exempt d)
+                 ((hist ++ get_stream_cmds passive verb1 off1) ++ [CVerb verb2]) s0 = mkO 0 0.
+  Proof. intros. apply second_transfer_starts_at_0; try assumption. exact offsets_ok_checked. Qed.
 End Checked.
